@@ -45,17 +45,19 @@ func (r *Rng) Seed() uint64 { return r.s }
 
 func FromState(s uint64) *Rng { return &Rng{s: s} }
 
-// ModelPath returns the compiled Lean model executable.
-func ModelPath() string {
-	if p := os.Getenv("VERIF_MODEL"); p != "" {
-		return p
+// ModelPath returns the compiled Lean model executable for a driver mode (`om_<mode>`).
+func ModelPath(mode string) string {
+	dir := os.Getenv("VERIF_MODEL_DIR")
+	if dir == "" {
+		dir = "/verif/lean/.lake/build/bin"
 	}
-	return "/verif/lean/.lake/build/bin/oasis_model"
+	return dir + "/om_" + mode
 }
 
-// RunModel pipes the lines to `oasis_model <mode>` and returns one answer per line.
-func RunModel(mode string, lines []string) ([]string, error) {
-	cmd := exec.Command(ModelPath(), mode)
+// RunModel pipes the lines to the model executable `om_<mode>` (with optional arguments)
+// and returns one answer per line.
+func RunModel(mode string, lines []string, args ...string) ([]string, error) {
+	cmd := exec.Command(ModelPath(mode), args...)
 	cmd.Stdin = strings.NewReader(strings.Join(lines, "\n") + "\n")
 	var out, errb bytes.Buffer
 	cmd.Stdout = &out
